@@ -96,7 +96,18 @@ def generate(seed, n, allow_flags=None, force_flags=None, alphabets=None, thresh
         name, alpha = alphas[rnd.randrange(len(alphas))] if rnd.random() < 0.75 else alphas[rnd.randrange(min(4, len(alphas)))]
         tcs = gen_strings(rnd, alpha)
         fl = gen_flags(rnd, allow_flags, force_flags)
+        big = [255, 65535, 2 ** 31 - 1, 2 ** 31, 2 ** 32 - 2, 2 ** 32 - 1]
         mr = rnd.choice([1, 1, 1, 2, 2, 3, 4, 6]) if thresholds else 1
         ms = rnd.choice([1, 1, 1, 2, 2, 3, 4, 6]) if thresholds else 1
+        if thresholds and rnd.random() < 0.04:
+            mr = rnd.choice(big)
+        if thresholds and rnd.random() < 0.04:
+            ms = rnd.choice(big)
+        if name == 'sgr' and rnd.random() < 0.6:
+            # complete SGR look-alikes inside literal text
+            toks = [[0x1b, 0x5b, 0x30, 0x6d], [0x1b, 0x5b, 0x31, 0x3b, 0x33, 0x32, 0x6d], [0x1b, 0x5b, 0x6d]]
+            for t in tcs:
+                if rnd.random() < 0.7:
+                    pos = rnd.randint(0, len(t)); t[pos:pos] = rnd.choice(toks)
         cases.append({"id": i, "tcs": tcs, "f": ",".join(fl), "mr": mr, "ms": ms, "alpha": name})
     return cases
